@@ -6,6 +6,7 @@ from pyvc.unit import unit
 
 GR = "androguard/decompiler/graph.py"
 META = {
+    "technique": 'bounded stand-in (not proved): contract on the real dom_lt evaluated on exhaustive small graphs + seeded random graphs',
     "level": "exploration",
     "partial": True,
     "level_text": "Bounded stand-in (NOT a proof): the contract 'dom[entry] is None and dom[v] is the immediate dominator of every "
